@@ -2,7 +2,6 @@ package c14
 
 import (
 	"encoding/json"
-	"errors"
 	"fmt"
 	"sort"
 	"strings"
@@ -907,5 +906,3 @@ func (e *env) undoExpectations() {
 		s.expect = nil
 	}
 }
-
-var errUnused = errors.New("unused")
